@@ -6,7 +6,7 @@ from common import hx
 
 UNIVERSE = ["a", "a/b", "a/c", "a/b/d", "a/b/d/f", "e", "e.txt"]
 SMALL_UNIVERSE = ["a", "a/b", "a/b/d", "e"]
-DATA = [b"", b"1", b"22\xff"]
+DATA = [b"", b"1", b"2", b"22\xff"]      # two values of equal length: a checksum "reused because the size did not change" shows
 USERS = ["u1", "u2"]
 USER_FIELD = "verif_user"
 MD5 = {hashlib.md5(d).hexdigest(): d for d in DATA + [b"\x01\x02", b"\x07", b"s", b"w"]}
@@ -293,9 +293,19 @@ def apply_op(store, K, op):
             # callers may reuse one metadata dictionary object for several keys (finalize_metadata fills it in place):
             # every other store() of a run hands over the same object, so aliasing between stored entries shows up
             _STORE_COUNT[0] += 1
-            if _STORE_COUNT[0] % 2:
+            if _STORE_COUNT[0] % 3 == 1:
                 _SHARED_MD[USER_FIELD] = op[3]
                 store.store(K(op[1]), op[2], _SHARED_MD)
+            elif _STORE_COUNT[0] % 3 == 2:
+                # read - amend - write: the caller recycles the metadata he read for the key (fileinfo of the previous content included)
+                try:
+                    m = store.get_metadata(K(op[1]))
+                    if not isinstance(m, dict):
+                        m = {}
+                except Exception:
+                    m = {}
+                m[USER_FIELD] = op[3]
+                store.store(K(op[1]), op[2], m)
             else:
                 store.store(K(op[1]), op[2], {USER_FIELD: op[3]})
         elif t == "M":
